@@ -54,6 +54,8 @@ def gen_geom(rng):
             g[j] = 0.0
         elif u < 0.13:
             g[j] = 1e-15 * rng.normal()
+    if rng.random() < 0.02:
+        g = np.zeros(n)      # constant Lagrange polynomial: staying put is optimal ("never worse than not moving")
     c = float(gen.pick(rng, [0.0, 1.0, float(rng.normal()), float(rng.normal() * np.linalg.norm(g))]))
     Delta = float(10.0 ** rng.uniform(-4, 1))
     r2 = np.random.default_rng([int(rng.integers(0, 2 ** 31)), 3])
